@@ -3,7 +3,7 @@ import json, os, random, re
 from . import common as C, pkgfam as P, dirfam as D, c02
 
 PID = "C14"
-THEORY = P.THEORY + ["theories/Format/Roundtrips.v", "theories/Dir/Descr.v", "theories/Dir/Variants.v", "theories/Container/Canon.v"]
+THEORY = P.THEORY + ["theories/Dir/Descr.v", "theories/Dir/Variants.v", "theories/Container/Canon.v", "theories/Dir/Values.v", "theories/Dir/EntryStore.v", "theories/Dir/EntryStoreVariants.v", "theories/Dir/DirFilePack.v"]
 CORPUS = os.path.join(C.VERIF, "corpus")
 
 
